@@ -1,6 +1,7 @@
 package h
 
 import (
+	"errors"
 	"fmt"
 	"strings"
 
@@ -90,7 +91,7 @@ func c10Leaves(front string) []c10leaf {
 }
 
 func C10_Jobs() []string {
-	return []string{"paths/map", "paths/validate", "paths/json", "missing/map", "missing/json", "flat/json", "flat/zhttp-json", "issuepath", "sanitize", "first-and-unique/map", "first-and-unique/validate", "root-key"}
+	return []string{"paths/map", "paths/validate", "paths/json", "missing/map", "missing/json", "flat/json", "flat/zhttp-json", "cross-front-end", "issuepath-stale", "issuepath", "sanitize", "first-and-unique/map", "first-and-unique/validate", "root-key"}
 }
 func C10_Covers() []string { return []string{"some-issues"} }
 
@@ -271,6 +272,70 @@ func C10_Run(job string) {
 				v.Assert(got == vals[f], "C10:value-not-read-from-documented-key")
 			}
 		}
+	case "cross-front-end":
+		// the same tagged destination parsed through different front ends in one process, in
+		// every order: each front end must use its own tag
+		order := v.Choice("order", 6)
+		fronts := [][]string{{"json", "map", "validate"}, {"json", "validate", "map"}, {"map", "json", "validate"}, {"map", "validate", "json"}, {"validate", "json", "map"}, {"validate", "map", "json"}}[order]
+		for _, front := range fronts {
+			var d c10L2
+			var errs z.ZogIssueMap
+			doc := map[string]any{}
+			var leaves []c10leaf
+			for _, f := range []struct{ n, j, zt string }{{"v", "jv", "zv"}, {"w", "", "zw"}, {"x", "jx", ""}, {"y", "", ""}} {
+				fr := front
+				if front == "validate" {
+					fr = "map"
+				}
+				key := c10Key(fr, f.j, f.zt, f.n)
+				leaves = append(leaves, c10leaf{f.n, key})
+				doc[key] = 5
+			}
+			switch front {
+			case "json":
+				errs = c10L2Schema().Parse(zjson.Decode(strings.NewReader(toJSON(doc))), &d)
+			case "map":
+				errs = c10L2Schema().Parse(doc, &d)
+			case "validate":
+				d = c10L2{5, 5, 5, 5}
+				errs = c10L2Schema().Validate(&d)
+			}
+			c10Check(errs, leaves, map[string]string{"v": "gt", "w": "gt", "x": "gt", "y": "gt"})
+		}
+	case "issuepath-stale":
+		// an IssuePath given to one test must not move issues that are not made by that test
+		boom := errors.New("boom")
+		v.MapOrderChoice(true)
+		var d struct {
+			A string
+			C string
+			L []string
+		}
+		k := v.Choice("kind", 3)
+		var errs z.ZogIssueMap
+		switch k {
+		case 0: // post-transform error on a sibling field
+			errs = z.Struct(z.Schema{"a": z.String().Min(1, z.IssuePath("alias")), "c": z.String().PostTransform(func(p any, c z.Ctx) error { return boom })}).
+				Parse(map[string]any{"a": "ok", "c": "x"}, &d)
+			c10WellFormed(errs)
+			v.Assert(len(errs["c"]) == 1 && len(errs["alias"]) == 0, "C10:issuepath-moved-an-unrelated-issue")
+		case 1: // preprocess error in a slice element after an element whose IssuePath test passed
+			el := z.Preprocess(func(s string, c z.Ctx) (string, error) {
+				if s == "bad" {
+					return "", boom
+				}
+				return s, nil
+			}, z.String().Min(2, z.IssuePath("alias")))
+			errs = z.Struct(z.Schema{"l": z.Slice(el)}).Parse(map[string]any{"l": []any{"good", "bad"}}, &d)
+			c10WellFormed(errs)
+			v.Assert(len(errs["l[1]"]) == 1 && len(errs["alias"]) == 0, "C10:issuepath-moved-an-unrelated-issue")
+		case 2: // same in Validate
+			d.A, d.C = "ok", "x"
+			errs = z.Struct(z.Schema{"a": z.String().Min(1, z.IssuePath("alias")), "c": z.String().PostTransform(func(p any, c z.Ctx) error { return boom })}).Validate(&d)
+			c10WellFormed(errs)
+			v.Assert(len(errs["c"]) == 1 && len(errs["alias"]) == 0, "C10:issuepath-moved-an-unrelated-issue")
+		}
+		v.Cover("some-issues")
 	case "issuepath":
 		x := v.Int("x")
 		var d struct {
